@@ -167,7 +167,8 @@ def format_datetime(dttm):
         zoned = pytz.utc.localize(dttm)
     else:
         zoned = dttm.astimezone(pytz.utc)
-    ts = zoned.strftime('%Y-%m-%dT%H:%M:%S')
+    # strftime("%Y") does not zero-pad years below 1000 on all platforms
+    ts = "{:04d}-".format(zoned.year) + zoned.strftime('%m-%dT%H:%M:%S')
     precision = getattr(dttm, 'precision', Precision.ANY)
     precision_constraint = getattr(
         dttm, 'precision_constraint', PrecisionConstraint.EXACT,
